@@ -59,7 +59,16 @@ func vObserve() {
 	}
 }
 
-func vFail(op string) bool { return nondetBool("fail." + op) }
+// vFaulted: some operation of the writer's file system was made to fail since the harness last cleared it
+var vFaulted bool
+
+func vFail(op string) bool {
+	if nondetBool("fail." + op) {
+		vFaulted = true
+		return true
+	}
+	return false
+}
 
 func stubMkdirAll(path string, perm os.FileMode) error {
 	vMkdirs = append(vMkdirs, path)
